@@ -532,6 +532,7 @@ func (s *StreamScenario) Check(k *sim.Kernel) []sim.Violation {
 	}
 	segs := []seg{{limit: -1}}
 	lossy := false
+	sawEOF := false
 	for i, op := range s.Ops {
 		o := ops[i]
 		if !o.done {
@@ -549,6 +550,11 @@ func (s *StreamScenario) Check(k *sim.Kernel) []sim.Violation {
 				out = append(out, vio("stream", "empty-read", "op %d: Read returned 0 bytes and no error", i))
 			}
 			continue
+		}
+		if o.res.Err == "eof" {
+			// what a read returns together with the end of the stream is part of the stream
+			segs[len(segs)-1].data = append(segs[len(segs)-1].data, o.res.Data...)
+			sawEOF = true
 		}
 		if o.res.Err != "canceled" && o.res.Err != "deadline" && o.res.Err != "timeout" {
 			break // the stream ended (EOF, reset): nothing further to judge
@@ -583,6 +589,9 @@ func (s *StreamScenario) Check(k *sim.Kernel) []sim.Violation {
 		return false
 	}
 	api := s.apiOps()
+	if !api && !lossy && sawEOF && s.PeerEnd == "close" && peerDone && len(segs) == 1 && len(segs[0].data) < len(S) && bytes.Equal(S[:len(segs[0].data)], segs[0].data) {
+		out = append(out, vio("stream", "tail-lost-at-eof", "the peer wrote %d bytes and closed in an orderly way; the consumer read up to the end of the stream but was given only %d of them: the last %d bytes were lost", len(S), len(segs[0].data), len(S)-len(segs[0].data)))
+	}
 	if !api && !match(0, 0) {
 		got := 0
 		for _, sg := range segs {
@@ -594,13 +603,6 @@ func (s *StreamScenario) Check(k *sim.Kernel) []sim.Violation {
 		}
 		detail := s.describeMismatch(ops)
 		out = append(out, vio("stream", key, "the bytes returned by the consumer's reads (%d bytes in %d runs separated by failed reads) are not the peer's stream in order and without loss/duplication%s: %s", got, len(segs), map[bool]string{true: " (bytes consumed by a cancelled read may be missing, nothing sent after it returned)", false: ""}[lossy], detail))
-	}
-	// ---- a frame read that reports success returns a frame: it ends with the delimiter
-	for i, op := range s.Ops {
-		if o := ops[i]; op.Kind == "frame" && o.done && o.res.Err == "nil" && (len(o.res.Data) == 0 || o.res.Data[len(o.res.Data)-1] != 0) {
-			out = append(out, vio("stream", "frame-without-delimiter", "op %d (ReadBytes(0), context %q) reported success with %d bytes that do not end with the delimiter: %q", i, op.Ctx.Mode, len(o.res.Data), abbreviate(string(o.res.Data), 60)))
-			break
-		}
 	}
 	// ---- a read that can be satisfied returns
 	pos := 0
